@@ -144,7 +144,10 @@ def run(ctx):
         texts = [t.replace("'a'", "'a%d'" % rd).replace('"a"', '"a%d"' % rd) for t in texts]
         # markers that share their root variable over different children, fresh every round: whoever interns a child first must not decide their order
         texts += ["extra == 'aa%d' and extra == 'b%d'" % (rd, rd), "extra == 'aa%d' and extra == 'c%d'" % (rd, rd), "extra == 'aa%d' and extra == 'd%d'" % (rd, rd),
-                  "'w%d' in os_name and extra == 'f%d'" % (rd, rd), "'w%d' in os_name and extra == 'e%d'" % (rd, rd)]
+                  "'w%d' in os_name and extra == 'f%d'" % (rd, rd), "'w%d' in os_name and extra == 'e%d'" % (rd, rd),
+                  # one list of versions under two spellings (trailing zeros), fresh every round: whichever spelling a thread interns first must not show
+                  "implementation_version in '3.8.0 %d.1'" % (100 + rd), "implementation_version in '3.8 %d.1.0'" % (100 + rd),
+                  "python_full_version not in '%d.2.0 3.9'" % (100 + rd), "python_full_version not in '%d.2 3.9.0'" % (100 + rd)]
         nthreads = 8 if quick else 16
         multi = fw.batch(h, [['stress', str(nthreads), '60000', [S(t) for t in texts]]], timeout=120)[0]
         single = fw.batch(h, [['stress', '1', '60000', [S(t) for t in texts]]], timeout=120)[0]
